@@ -135,6 +135,8 @@ func main() {
 		lwg.Add(1)
 		go func() { defer lwg.Done(); stagedCA(r, dir, ca1, clientCert, clientKey) }()
 		lwg.Add(1)
+		go func() { defer lwg.Done(); lapsingServerCert(r, dir, ca1, clientCert, clientKey) }()
+		lwg.Add(1)
 		go func() { defer lwg.Done(); concurrentConstruction(r, dir, ca1, ca2, clientCert, clientKey) }()
 		ips := []string{"127.0.0.2", "127.0.0.3", "127.0.0.4"}
 		n := r.Pick(600, 6000)
@@ -734,4 +736,78 @@ func clientFilesBroken(r *ev.Run, dir string, ca *caserver.CA) {
 			r.Nontrivial("client-files-broken:" + damage)
 		})
 	}
+}
+
+// lapsingServerCert: the first endpoint's certificate is valid when the signer is first used and runs out three
+// seconds later. A server is genuine at the time of the call: the call made after that moment does not have its
+// request handled by that server any more and is served by the next (genuine) endpoint.
+func lapsingServerCert(r *ev.Run, dir string, ca *caserver.CA, clientCert, clientKey string) {
+	c := r.Case("lapsing-server-cert", 0)
+	if c == nil {
+		return
+	}
+	start := time.Now()
+	lapse := start.Add(3 * time.Second).Truncate(time.Second)
+	sub := filepath.Join(dir, "lapsing-server")
+	os.Mkdir(sub, 0o700)
+	caPath := filepath.Join(sub, "ca.pem")
+	os.WriteFile(caPath, ca.PEM, 0o600)
+	ips := []string{"127.0.1.95", "127.0.1.96"}
+	confs := []*tls.Config{
+		{Certificates: []tls.Certificate{ca.Issue(caserver.Leaf{CN: "crypki", IPs: []string{ips[0]}, NotBefore: start.Add(-time.Hour), NotAfter: lapse})}, MinVersion: tls.VersionTLS12},
+		{Certificates: []tls.Certificate{ca.Issue(caserver.Leaf{CN: "crypki", IPs: []string{ips[1]}})}, MinVersion: tls.VersionTLS12},
+	}
+	servers, port, err := caserver.StartGroup(ips, confs)
+	if err != nil {
+		r.Count("lapsing server certificate: cannot start servers (skipped)", 1)
+		return
+	}
+	defer servers[0].Stop()
+	defer servers[1].Stop()
+	now64 := uint64(start.Unix())
+	mkText := func(id string) string {
+		return string(ssh.MarshalAuthorizedKey(gen.MakeCert(gen.CertSpec{Key: gen.Pool()[0], KeyID: id, ValidAfter: now64 - 10, ValidBefore: now64 + 100})))
+	}
+	t1, t2 := mkText("from-first"), mkText("from-second")
+	rec := map[string]any{"first_endpoint_certificate_not_after": lapse.Format(time.RFC3339)}
+	r.Eval(1)
+	r.Guard(c, "server certificate lapses between calls", rec, func() {
+		signer, err := crypki.NewSigner(crypki.SignerConfig{TLSClientKeyFile: clientKey, TLSClientCertFile: clientCert, TLSCACertFiles: []string{caPath}, CrypkiEndpoints: ips, CrypkiPort: uint(port), Retries: 1, PerTryTimeout: 10 * time.Second})
+		if err != nil {
+			r.Violation(c, "signer-construction-fails", err.Error(), rec)
+			return
+		}
+		call := func() (string, error) {
+			servers[0].Set(func(context.Context, *proto.SSHCertificateSigningRequest) (*proto.SSHKey, error) { return &proto.SSHKey{Key: t1}, nil })
+			servers[1].Set(func(context.Context, *proto.SSHCertificateSigningRequest) (*proto.SSHKey, error) { return &proto.SSHKey{Key: t2}, nil })
+			ctx, cancel := context.WithTimeout(context.Background(), 60*time.Second)
+			defer cancel()
+			certs, _, serr := signer.Sign(ctx, &proto.SSHCertificateSigningRequest{KeyMeta: &proto.KeyMeta{Identifier: "x"}, Principals: []string{"a"}, PublicKey: "k", Validity: 60})
+			if serr != nil || len(certs) != 1 {
+				return "", fmt.Errorf("certs=%d err=%v", len(certs), serr)
+			}
+			return certs[0].(*ssh.Certificate).KeyId, nil
+		}
+		if time.Until(lapse) > 1200*time.Millisecond {
+			from, err := call()
+			if err != nil || from != "from-first" {
+				r.Violation(c, "sign-fails-although-a-genuine-endpoint-is-configured:lapsing-server-cert:before", fmt.Sprintf("from=%q err=%v", from, err), rec)
+				return
+			}
+		}
+		if d := time.Until(lapse.Add(1500 * time.Millisecond)); d > 0 {
+			time.Sleep(d)
+		}
+		from, err := call()
+		if n := len(servers[0].Calls()); n > 0 || from == "from-first" {
+			r.Violation(c, "rpc-handled-by-non-genuine-server:expired-since-the-previous-call", fmt.Sprintf("the first endpoint's certificate ran out at %s; a call made 1.5 s later had its request handled by that server (%d requests; result from %q, err=%v)", lapse.Format(time.RFC3339), n, from, err), rec)
+			return
+		}
+		if err != nil || from != "from-second" {
+			r.Violation(c, "sign-fails-although-a-genuine-endpoint-is-configured:lapsing-server-cert:after", fmt.Sprintf("from=%q err=%v", from, err), rec)
+			return
+		}
+		r.Count("calls after the first endpoint's certificate had run out: served by the next endpoint", 1)
+		r.Nontrivial("lapsing-server-cert")
+	})
 }
